@@ -957,10 +957,21 @@ def build_fn(ctx, unit, fs):
         # with the same text replaced by a call to this function (O1 to_body_end=1): the function is verified in two halves
         # that meet at the tail's contract. What this drops: nothing of the text; the two halves are separate Verus functions.
         anchor_ = fs.opts["slice_tail"].replace("~", " ")
-        s_, _e = find_anchor(sf, toks[it.body_open].end, toks[it.body_close].start, anchor_, int(fs.opts.get("slice_nth", 1)), fs.path)
+        if anchor_.startswith("after_loop "):
+            # the slice starts behind the N-th loop of the function (an anchor that does not quote the text of the slice itself)
+            lps_ = find_loops(sf, it.body_open, it.body_close)
+            n_ = int(anchor_.split()[1])
+            if n_ > len(lps_):
+                raise LostAnchor(f"{fs.path}: slice_tail after_loop {n_}: function has {len(lps_)} loops")
+            j_ = lps_[n_ - 1][0] + 1
+            while toks[j_].text != "{":
+                j_ = sf.pair[j_] + 1 if toks[j_].text in ("(", "[") else j_ + 1
+            s_ = toks[sf.pair[j_]].end
+        else:
+            s_, _e = find_anchor(sf, toks[it.body_open].end, toks[it.body_close].start, anchor_, int(fs.opts.get("slice_nth", 1)), fs.path)
         bl, bh = it.body_open, it.body_close
         fake = rustlex.Item("fn", "slice", toks[bl].start, toks[bh].end, toks[bl].start, bl, bh + 1, bl, bh, "")
-        arm = dict(item=fake, pre="", pre_line=0, tail="", tail_line=0,
+        arm = dict(item=fake, pre="", pre_line=0, tail=fs.opts.get("stail", "").replace("~", " "), tail_line=sf.line_of(toks[bh].start),
                    params=fs.opts["sparams"].replace("~", " "), ret=fs.opts.get("sret", "()").replace("~", " "))
         tail_cut = (toks[bl].end, s_)
         tail_cut2 = None
@@ -1352,7 +1363,8 @@ def site_rewrite(ctx, sf, it, rule, anchor, nth, ropts, what):
             vec = ropts["src"].replace("~", " ")
         body_open, body_close = j, pair[j]
         head = f"{{ let {var}__v = {vec}; let mut {var}__c: usize = 0; while {var}__c < {var}__v.len() "
-        first = f" let {var} = {var}__v[{var}__c]; {var}__c += 1;"
+        # elem_ref=1: the element type is not Copy and the body only reads the element -> bind a reference to it
+        first = f" let {var} = {'&' if ropts.get('elem_ref') else ''}{var}__v[{var}__c]; {var}__c += 1;"
         edits += [Edit(toks[k].start, toks[body_open].start, head),
                   Edit(toks[body_open].end, toks[body_open].end, first, prio=-1),
                   Edit(toks[body_close].end, toks[body_close].end, " }")]
